@@ -13,5 +13,5 @@ echo "seeded changes: $ns, not reported: $ms"
 grep "^== " /tmp/regress.seeds.$$ | grep -v "(rc=1)"
 echo "neutral refactorings: $nn, alarms (exit 1 or 2): $fa"
 grep -A4 "^== " /tmp/regress.neutral.$$ | grep -v ": none" | grep -v "^--" | cut -c1-240
-rm -f /tmp/regress.seeds.$$ /tmp/regress.neutral.$$
+cp /tmp/regress.seeds.$$ ${KEEP:-/tmp}/regress.seeds.last 2>/dev/null; cp /tmp/regress.neutral.$$ ${KEEP:-/tmp}/regress.neutral.last 2>/dev/null; rm -f /tmp/regress.seeds.$$ /tmp/regress.neutral.$$
 [ "$ms" = 0 ] && [ "$fa" = 0 ]
